@@ -9,7 +9,11 @@
    the model and Z in the generated file (zs), an SQL text is a byte list in the model and a
    string in the generated file (str_of).  The statistics calls (stats.Add) are not translated. *)
 From Coq Require Import List String Ascii Bool NArith ZArith Lia ZifyBool.
-From RQ Require Import Lib.GoLib Lib.GenTac Model.C29_Wire Model.C29 Gen.Marshal.
+From RQ Require Import Lib.GoLib.
+From RQ Require Import Lib.GenTac.
+From RQ Require Import Model.C29_Wire.
+From RQ Require Import Model.C29.
+From RQ Require Import Gen.Marshal.
 Import ListNotations.
 Local Open Scope Z_scope.
 
@@ -58,7 +62,7 @@ Section Marshal.
   Proof.
     intros c ss raw gz Hgz.
     assert (Hgz' : gz_compress (zs raw) = (zs gz, None)) by (unfold gz_compress; rewrite ns_zs, Hgz; reflexivity).
-    unfold gen_marshal, RequestMarshaler_Marshal, want_compress, choose, rep, get_request, get_statements, pb_marshal.
+    unfold gen_marshal, RequestMarshaler_Marshal, want_compress, choose, rep, get_request, get_statements, pb_marshal. aux.
     cbn [fst snd RequestMarshaler_BatchThreshold RequestMarshaler_SizeThreshold RequestMarshaler_ForceCompression].
     unfold zlen at 1. rewrite map_length.
     destruct (Z.leb (m_batch c) (Z.of_nat (List.length ss))) eqn:B.
